@@ -234,11 +234,55 @@ def e2e(ctx, dist, progs=None):
     return mism, len(flat)
 
 
+def admits(op, t):
+    """the reviewed class of operand types per operator (Coq: RuntimeLaws.admits; typechecker.rs equ/cmp/add/sub/mul/div/neg)"""
+    if op in ("eq", "ne"):
+        return True
+    if op in ("lt", "le", "gt", "ge"):
+        return H.is_ord(t)
+    if op == "add":
+        return H.is_add(t)
+    return H.is_num(t)          # sub mul div neg
+
+
+def admissibility(ctx, dist):
+    """the REAL type checker accepts `a o b` on two operands of one type exactly for the types `admits` names"""
+    r = vlib.rng(ctx.seed, "c19-admit")
+    n = 260 if ctx.tier == "quick" else 4000
+    items = []
+    while len(items) < n:
+        t = H.gen_type(r, r.randint(0, 2))
+        op = r.choice(["eq", "ne", "lt", "le", "gt", "ge", "add", "sub", "mul", "div", "neg"])
+        try:
+            a, b = H.sy(H.gen_value(r, t, small=True), t), H.sy(H.gen_value(r, t, small=True), t)
+        except ValueError:
+            continue
+        e = "-a" if op == "neg" else "a %s b" % H.SY_OPS[op]
+        src = H.sylt_program(["    a: %s = %s" % (H.sy_type(t), a), "    b: %s = %s" % (H.sy_type(t), b), "    c := " + e,
+                              "    print(1)"], use_decls=H.uses_decls(t))
+        items.append((op, t, src))
+    cases = ["std\t/main.sy\t/main.sy=%s" % vlib.hexs(src) for _, _, src in items]
+    outs = vlib.harness("compile", cases, timeout_s=30)
+    mism = []
+    tab = collections.Counter()
+    for (op, t, src), o in zip(items, outs):
+        accepted = o.startswith("OK ")
+        want = admits(op, t)
+        tab["%s:%s" % (op, "admitted" if want else "not-admitted")] += 1
+        if accepted != want or (not accepted and not o.startswith("ERR Type:")):
+            mism.append({"where": "admissibility", "operator": op, "type": H.sy_type(t), "predicate_admits": want,
+                         "compiler": o[:120], "source": src})
+    dist["admissibility"] = {"programs": len(items), "operator_x_class": dict(tab)}
+    return mism, len(items)
+
+
 def tie(ctx):
     dist = {}
     m1, n1, nt = lua_level(ctx, dist)
     m2, n2 = e2e(ctx, dist)
-    mism = m1 + m2
+    m3, n3 = admissibility(ctx, dist)
+    mism = m1 + m2 + m3
+    n2 += n3
     samples = []
     r = vlib.rng(ctx.seed, "c19-samples")
     for _ in range(3):
@@ -250,7 +294,9 @@ def tie(ctx):
                     "quotes, numerals and non-ASCII, bools, tuples, lists, Maybe, blobs, enums; pairs differ in at most one leaf "
                     "70% of the time; 7% ill-typed pairs) evaluated by the real preamble.lua under LuaCore and by the extracted "
                     "Runtime model; (2) Sylt programs (std bundled) printing such applications, compiled by the real compiler and "
-                    "run by LuaCore, compared with the Runtime model and with plain structural definitions in Python; non-trivial = "
+                    "run by LuaCore, compared with the Runtime model and with plain structural definitions in Python; (3) for "
+                    "generated types (all kinds, depth <= 2) and every operator, the real type checker accepts `a o b` on two "
+                    "operands of that type exactly when the reviewed predicate `admits` does; non-trivial = "
                     "an operand of composite type; distinct by case text",
             "samples": samples, "distribution": dist}
 
